@@ -261,24 +261,140 @@ theorem stripPtrsE_spec (nfs : Bool) : ∀ (T : GoTypeE), ∃ t an, stripPtrsE T
   | .map k e => ⟨_, false, rfl, (fun _ h => nomatch h), rfl, fun _ _ _ => by simp⟩
   | .struct fs => ⟨_, false, rfl, (fun _ h => nomatch h), rfl, fun _ _ _ => by simp⟩
 
+mutual
+  /-- no embedded field anywhere in `T` — in its structs, their embedded structs, the types of their fields, element
+      types — is of a type that has a TypeSchemas entry (an embedded pointer type never has one) -/
+  def EmbNotInTable (opts : IOpts) : GoTypeE → Prop
+    | .basic _ => True
+    | .ref _ => True
+    | .named _ u => EmbNotInTable opts u
+    | .ptr e => EmbNotInTable opts e
+    | .slice e => EmbNotInTable opts e
+    | .array _ e => EmbNotInTable opts e
+    | .map _ e => EmbNotInTable opts e
+    | .struct fs => EmbNotInTableFs opts fs
+  def EmbNotInTableFs (opts : IOpts) : List (FieldE GoTypeE) → Prop
+    | [] => True
+    | f :: rest =>
+      (f.embedded = true → ((typeNameE f.type).bind fun nm => Json.lookup nm opts.schemas) = none) ∧
+      EmbNotInTable opts f.type ∧ EmbNotInTableFs opts rest
+end
+
+/-- in particular when there is no TypeSchemas entry at all -/
+theorem embNotInTable_of_empty {opts : IOpts} (hno : ∀ nm, Json.lookup nm opts.schemas = none) :
+    ∀ (n : Nat), (∀ T, wt T ≤ n → EmbNotInTable opts T) ∧ (∀ fs, wtFs fs ≤ n → EmbNotInTableFs opts fs) := by
+  intro n
+  induction n with
+  | zero =>
+    refine ⟨fun T hw => ?_, fun fs hw => ?_⟩
+    · cases T <;> simp only [wt] at hw <;> first | trivial | omega
+    · cases fs with
+      | nil => trivial
+      | cons f rest => simp only [wtFs] at hw; omega
+  | succ n ih =>
+    refine ⟨fun T hw => ?_, fun fs hw => ?_⟩
+    · cases T with
+      | basic _ => trivial
+      | ref _ => trivial
+      | named _ u => simp only [wt] at hw; simp only [EmbNotInTable]; exact ih.1 u (by omega)
+      | ptr e => simp only [wt] at hw; simp only [EmbNotInTable]; exact ih.1 e (by omega)
+      | slice e => simp only [wt] at hw; simp only [EmbNotInTable]; exact ih.1 e (by omega)
+      | array _ e => simp only [wt] at hw; simp only [EmbNotInTable]; exact ih.1 e (by omega)
+      | map _ e => simp only [wt] at hw; simp only [EmbNotInTable]; exact ih.1 e (by omega)
+      | struct fs => simp only [wt] at hw; simp only [EmbNotInTable]; exact ih.2 fs (by omega)
+    · cases fs with
+      | nil => trivial
+      | cons f rest =>
+        simp only [wtFs] at hw
+        simp only [EmbNotInTableFs]
+        refine ⟨fun _ => ?_, ih.1 f.type (by omega), ih.2 rest (by omega)⟩
+        cases typeNameE f.type with
+        | none => rfl
+        | some nm => exact hno nm
+
+theorem embViewN (opts : IOpts) (t : GoTypeE) :
+    (∃ fs, (∀ idx, embFields idx t = allFields idx 0 fs) ∧ (EmbNotInTable opts t → EmbNotInTableFs opts fs) ∧
+        wtFs fs < wt t) ∨ (∀ idx, embFields idx t = []) := by
+  cases t with
+  | ptr e =>
+    cases e with
+    | named nm u =>
+      cases u with
+      | struct fs => exact Or.inl ⟨fs, fun _ => rfl, fun h => by simpa only [EmbNotInTable] using h, by simp only [wt]; omega⟩
+      | _ => exact Or.inr fun _ => rfl
+    | struct fs => exact Or.inl ⟨fs, fun _ => rfl, fun h => by simpa only [EmbNotInTable] using h, by simp only [wt]; omega⟩
+    | _ => exact Or.inr fun _ => rfl
+  | named nm u =>
+    cases u with
+    | struct fs => exact Or.inl ⟨fs, fun _ => rfl, fun h => by simpa only [EmbNotInTable] using h, by simp only [wt]; omega⟩
+    | _ => exact Or.inr fun _ => rfl
+  | struct fs => exact Or.inl ⟨fs, fun _ => rfl, fun h => by simpa only [EmbNotInTable] using h, by simp only [wt]; omega⟩
+  | _ => exact Or.inr fun _ => rfl
+
+theorem allFields_notInTable (opts : IOpts) : ∀ (n : Nat) (fs : List (FieldE GoTypeE)) (pre : List Nat) (i : Nat), wtFs fs ≤ n →
+    EmbNotInTableFs opts fs → ∀ f, f ∈ allFields pre i fs →
+      (f.anonymous = true → ((typeNameE f.type).bind fun nm => Json.lookup nm opts.schemas) = none) ∧
+      EmbNotInTable opts f.type := by
+  intro n
+  induction n with
+  | zero =>
+    intro fs pre i hw _ f hf
+    cases fs with
+    | nil => simp only [allFields] at hf; cases hf
+    | cons g rest => simp only [wtFs] at hw; omega
+  | succ n ihn =>
+    intro fs pre i hw hnt f hf
+    cases fs with
+    | nil => simp only [allFields] at hf; cases hf
+    | cons g rest =>
+      simp only [wtFs] at hw
+      simp only [EmbNotInTableFs] at hnt
+      simp only [allFields, List.mem_cons, List.mem_append] at hf
+      rcases hf with rfl | hf | hf
+      · exact ⟨hnt.1, hnt.2.1⟩
+      · cases he : g.embedded with
+        | false => rw [he] at hf; simp at hf
+        | true =>
+          rw [he] at hf
+          simp only [if_true] at hf
+          rcases embViewN opts g.type with ⟨fs', hfe, hsub, hlt⟩ | hfe
+          · rw [hfe] at hf
+            exact ihn fs' _ 0 (by omega) (hsub hnt.2.1) f hf
+          · rw [hfe] at hf
+            cases hf
+      · exact ihn rest pre (i + 1) (by omega) hnt.2.2 f hf
+
+theorem noOverride_of_embNotInTable {opts : IOpts} {fs : List (FieldE GoTypeE)} (h : EmbNotInTableFs opts fs) :
+    NoOverride opts (visibleFields fs) :=
+  fun f hf => (allFields_notInTable opts _ fs [] 0 (Nat.le_refl _) h f (mem_visibleFields hf)).1
+
+theorem stripPtrsE_notInTable (opts : IOpts) : ∀ (T : GoTypeE), EmbNotInTable opts T → EmbNotInTable opts (stripPtrsE T).1
+  | .ptr e, h => by
+    simp only [EmbNotInTable] at h
+    simp only [stripPtrsE]
+    exact stripPtrsE_notInTable opts e h
+  | .basic _, h => h
+  | .named _ _, h => h
+  | .ref _, h => h
+  | .slice _, h => h
+  | .array _ _, h => h
+  | .map _ _, h => h
+  | .struct _, h => h
+
 /-- what is assumed of the recursive call on the domain -/
-def RecOkE (nfs : Bool) (rec : IRecE) : Prop :=
-  ∀ T seen st r st', InDomainE T = true → rec T seen st = .ok (r, st') →
-    ∃ id, r = some id ∧ Models nfs st' (flatten T) false id
+def RecOkE (opts : IOpts) (rec : IRecE) : Prop :=
+  ∀ T seen st r st', InDomainE T = true → EmbNotInTable opts T → rec T seen st = .ok (r, st') →
+    ∃ id, r = some id ∧ Models opts.nullForSlices st' (flatten T) false id
 
-/-- no TypeSchemas entry at all: no embedded type is overridden -/
-theorem noOverride_of_empty {opts : IOpts} (hno : ∀ nm, Json.lookup nm opts.schemas = none) (vfs : List VField) :
-    NoOverride opts vfs := by
-  intro f _ _
-  cases typeNameE f.type with
-  | none => rfl
-  | some nm => exact hno nm
-
-theorem inferStepE_models (opts : IOpts) (hno : ∀ nm, Json.lookup nm opts.schemas = none) {rec : IRecE}
-    (hinv : IRecEInv rec) (hrec : RecOkE opts.nullForSlices rec) : RecOkE opts.nullForSlices (inferStepE opts rec) := by
-  intro T seen st r st' hdomT h
+theorem inferStepE_models (opts : IOpts) {rec : IRecE}
+    (hinv : IRecEInv rec) (hrec : RecOkE opts rec) : RecOkE opts (inferStepE opts rec) := by
+  intro T seen st r st' hdomT hntT h
   obtain ⟨t, an, hs, hnp, hdom, hmod⟩ := stripPtrsE_spec opts.nullForSlices T
   rw [← hdom] at hdomT
+  have hnt : EmbNotInTable opts t := by
+    have := stripPtrsE_notInTable opts T hntT
+    rw [hs] at this
+    exact this
   simp only [hmod, Bool.false_or]
   cases t with
   | ptr e => exact absurd rfl (hnp e)
@@ -296,7 +412,7 @@ theorem inferStepE_models (opts : IOpts) (hno : ∀ nm, Json.lookup nm opts.sche
     simp only [InDomainE] at hdomT
     rw [inferStepE_slice hs] at h
     obtain ⟨⟨es, st1⟩, he, h⟩ := Res.bind_eq_ok h
-    obtain ⟨eid, rfl, hm⟩ := hrec _ _ _ _ _ hdomT he
+    obtain ⟨eid, rfl, hm⟩ := hrec _ _ _ _ _ hdomT (by simpa only [EmbNotInTable] using hnt) he
     cases h
     refine ⟨_, rfl, ?_⟩
     simp only [flatten, Models]
@@ -305,7 +421,7 @@ theorem inferStepE_models (opts : IOpts) (hno : ∀ nm, Json.lookup nm opts.sche
     simp only [InDomainE] at hdomT
     rw [inferStepE_array hs] at h
     obtain ⟨⟨es, st1⟩, he, h⟩ := Res.bind_eq_ok h
-    obtain ⟨eid, rfl, hm⟩ := hrec _ _ _ _ _ hdomT he
+    obtain ⟨eid, rfl, hm⟩ := hrec _ _ _ _ _ hdomT (by simpa only [EmbNotInTable] using hnt) he
     cases h
     refine ⟨_, rfl, ?_⟩
     simp only [flatten, Models]
@@ -315,7 +431,7 @@ theorem inferStepE_models (opts : IOpts) (hno : ∀ nm, Json.lookup nm opts.sche
     rw [inferStepE_map hs] at h
     simp only [hdomT.1, bne_self_eq_false, Bool.false_eq_true, if_false] at h
     obtain ⟨⟨es, st1⟩, he, h⟩ := Res.bind_eq_ok h
-    obtain ⟨eid, rfl, hm⟩ := hrec _ _ _ _ _ hdomT.2 he
+    obtain ⟨eid, rfl, hm⟩ := hrec _ _ _ _ _ hdomT.2 (by simpa only [EmbNotInTable] using hnt) he
     cases h
     refine ⟨_, rfl, ?_⟩
     simp only [flatten, Models]
@@ -325,10 +441,12 @@ theorem inferStepE_models (opts : IOpts) (hno : ∀ nm, Json.lookup nm opts.sche
     obtain ⟨hok, hdf⟩ := hdomT
     obtain ⟨n, st1, hl, rfl, rfl⟩ := inferStepE_struct_ok hs h
     refine ⟨_, rfl, ?_⟩
-    have hnov := noOverride_of_empty hno (visibleFields fields)
+    have hntf : EmbNotInTableFs opts fields := by simpa only [EmbNotInTable] using hnt
+    have hnov := noOverride_of_embNotInTable hntf
     have hrm : RecModelsE opts.nullForSlices rec seen (visibleFields fields) :=
       fun f hf hlive s r s1 hr =>
-        hrec _ _ _ _ _ (allFields_domain _ fields [] 0 (Nat.le_refl _) hdf f (mem_visibleFields hf) hlive) hr
+        hrec _ _ _ _ _ (allFields_domain _ fields [] 0 (Nat.le_refl _) hdf f (mem_visibleFields hf) hlive)
+          (allFields_notInTable opts _ fields [] 0 (Nat.le_refl _) hntf f (mem_visibleFields hf)).2 hr
     have hndrop : NeverDropsE rec seen (visibleFields fields) := fun f hf hlive s s1 hr => by
       obtain ⟨fid, hfid, _⟩ := hrm f hf hlive s _ s1 hr
       cases hfid
@@ -366,10 +484,9 @@ theorem inferStepE_models (opts : IOpts) (hno : ∀ nm, Json.lookup nm opts.sche
       have := (hkeys k).1 hk
       simpa [structNode0] using this
 
-theorem inferFuelE_models (opts : IOpts) (hno : ∀ nm, Json.lookup nm opts.schemas = none) :
-    ∀ fuel, RecOkE opts.nullForSlices (inferFuelE opts fuel)
-  | 0 => fun _ _ _ _ _ _ h => by cases h
-  | fuel + 1 => inferStepE_models opts hno (inferFuelE_inv opts fuel) (inferFuelE_models opts hno fuel)
+theorem inferFuelE_models (opts : IOpts) : ∀ fuel, RecOkE opts (inferFuelE opts fuel)
+  | 0 => fun _ _ _ _ _ _ _ h => by cases h
+  | fuel + 1 => inferStepE_models opts (inferFuelE_inv opts fuel) (inferFuelE_models opts fuel)
 
 end Go
 end JSV
